@@ -1,6 +1,6 @@
 """Checked contracts for ECAgent/Core.py.  Predicates are executable Python (symbolic + concrete reading)."""
 from pyvc.specs import contract, fields_of, lemma, implies, iff, index_of, order_of, key_at, is_fresh, \
-    same_elems, same_dict, typeof, is_none, same
+    same_elems, same_dict, typeof, is_none, same, same_obj
 
 # ------------------------------------------------------------------------------------------------ field types
 fields_of('Model', environment='ref:Environment', systems='ref:SystemManager', random='ref:Random',
@@ -483,8 +483,12 @@ contract('Core.Agent.get_component',
          use='inline', props=['C03'])
 contract('Core.Agent.__getitem__', params={'self': 'ref:Agent', 'item': 'cls'}, returns='ref?:Component',
          use='inline', props=['C03'])
+def agent_contains_post(self, item, result):
+    return result == (item in self.components)
+
+
 contract('Core.Agent.__contains__', params={'self': 'ref:Agent', 'item': 'cls'}, returns='bool',
-         use='inline', props=['C13'])
+         ensures={'C13': [agent_contains_post]}, modifies=['new:list[cls]'], use='inline', props=['C13'])
 contract('Core.Agent.__len__', params={'self': 'ref:Agent'}, returns='int', use='inline', props=['C03'])
 
 
@@ -623,7 +627,8 @@ def pool_cut(P, P0, T, c):
     return ((len(P0[T]) == 1 and T not in P)
             or (len(P0[T]) > 1 and T in P and len(P[T]) == len(P0[T]) - 1
                 and all(P[T][j] is P0[T][j] for j in range(0, index_of(P0[T], c)))
-                and all(P[T][j] is P0[T][j + 1] for j in range(index_of(P0[T], c), len(P[T])))))
+                and all(P[T][j] is P0[T][j + 1] for j in range(index_of(P0[T], c), len(P[T])))
+                and all(P[T][j - 1] is P0[T][j] for j in range(index_of(P0[T], c) + 1, len(P0[T])))))
 
 
 def Pools_distinct(self):
@@ -639,8 +644,8 @@ def register_post(self, component, old):
     return (pool_ext(P, P0, T, component)
             and all(T2 is T or pool_same(P, P0, T2) for T2 in P0)
             and all(T2 is T or T2 in P0 for T2 in P)
-            and all(T2 is T or P[T2] is P0[T2] for T2 in P0)
-            and (T not in P0 or P[T] is P0[T])
+            and all(T2 is T or same_obj(P[T2], P0[T2]) for T2 in P0)
+            and (T not in P0 or same_obj(P[T], P0[T]))
             and (T in P0 or is_fresh(P[T], old)))
 
 
@@ -665,7 +670,7 @@ def deregister_post(self, component, old):
     return (pool_cut(P, P0, T, component)
             and all(T2 is T or pool_same(P, P0, T2) for T2 in P0)
             and all(T2 in P0 for T2 in P)
-            and all(T2 not in P or P[T2] is P0[T2] for T2 in P0))
+            and all(T2 not in P or same_obj(P[T2], P0[T2]) for T2 in P0))
 
 
 def deregister_unknown(self, component, old):
@@ -764,7 +769,7 @@ def env_add_inv(self, agent, old, p):
             and all(pool_same(P, P0, key_at(C, j)) for j in range(p, len(C)))
             and all(T in C or pool_same(P, P0, T) for T in P0)
             and all(T in C or T in P0 for T in P)
-            and all(T in P and P[T] is P0[T] for T in P0)
+            and all(T in P and same_obj(P[T], P0[T]) for T in P0)
             and all(T in P0 or is_fresh(P[T], old) for T in P)
             and all(P[T1] is not P[T2] for T1 in P for T2 in P if T1 is not T2))
 
@@ -814,7 +819,7 @@ def env_remove_inv(self, a_id, old, p):
             and all(pool_same(P, P0, key_at(C, j)) for j in range(p, len(C)))
             and all(T in C or pool_same(P, P0, T) for T in P0)
             and all(T in P0 for T in P)
-            and all(T not in P or P[T] is P0[T] for T in P0)
+            and all(T not in P or same_obj(P[T], P0[T]) for T in P0)
             and all(P[T1] is not P[T2] for T1 in P for T2 in P if T1 is not T2))
 
 
@@ -827,3 +832,146 @@ contract('Core.Environment.remove_agent',
          loops={0: dict(invariant=[(env_remove_inv, ['C03', 'C04'])], index='p',
                         modifies=['self.model.systems.component_pools', 'store:list[ref:Component]'])},
          props=['C03', 'C04'])
+
+
+def env_init_post(self, model, id, old):
+    return (self.id == id and self.model is model and len(self.agents) == 0 and len(self.components) == 0
+            and is_fresh(self.agents, old) and is_fresh(self.components, old))
+
+
+contract('Core.Environment.__init__',
+         params={'self': 'ref:Environment', 'model': 'ref:Model', 'id': 'str'},
+         ensures={'C04': [env_init_post, Env_rep], 'C03': [env_init_post], 'C20': [env_init_post]},
+         modifies=['self.id', 'self.model', 'field:self.components', 'self.tag', 'field:self.agents',
+                   'new:dict[cls,ref:Component]', 'new:dict[str,ref:Agent]'],
+         props=['C04'])
+
+
+def get_agent_post(self, id, throw_error, result):
+    return ((id in self.agents and result is self.agents[id]) or (id not in self.agents and is_none(result)))
+
+
+def get_agent_unknown(self, id, throw_error, old):
+    return throw_error and id not in old.self.agents
+
+
+contract('Core.Environment.get_agent',
+         params={'self': 'ref:Environment', 'id': 'str', 'throw_error': 'bool'}, returns='ref?:Agent',
+         ensures={'C04': [get_agent_post]},
+         raises={'AgentNotFoundError': dict(when=get_agent_unknown)},
+         props=['C04'])
+
+
+def env_len_post(self, result):
+    return result == len(self.agents)
+
+
+contract('Core.Environment.__len__', params={'self': 'ref:Environment'}, returns='int',
+         ensures={'C04': [env_len_post]}, props=['C04'])
+
+
+def env_iter_post(self, result):
+    """Iteration yields the residents in joining order (the generator is read as the list it produces)."""
+    A = self.agents
+    return len(result) == len(A) and all(result[i] is A[key_at(A, i)] for i in range(len(A)))
+
+
+contract('Core.Environment.__iter__', params={'self': 'ref:Environment'}, returns='list[ref:Agent]',
+         ensures={'C04': [env_iter_post]}, modifies=['new:list[ref:Agent]'], native=False,
+         assumes=['a generator expression is read as the list of the values it yields (lazy evaluation not modelled)'],
+         props=['C04'])
+
+
+def random_pick_post(self, args, tag, result, old):
+    """None iff no resident matches; otherwise a resident that matches."""
+    A = self.agents
+    return ((is_none(result) and all(not matches(A[k], args, tag) for k in A))
+            or (not is_none(result) and result.id in A and A[result.id] is result and matches(result, args, tag)))
+
+
+contract('Core.Environment.get_random_agent',
+         params={'self': 'ref:Environment', '*args': 'list[cls]', 'tag': 'int'}, returns='ref?:Agent',
+         requires=[Env_rep],
+         ensures={'C13': [random_pick_post]},
+         modifies=['new:list[ref:Agent]'],
+         cases=[dict(name='tag', params={'tag': 'int'}), dict(name='notag', params={'tag': 'none'})],
+         effects_check=['rng_only_model_random'],
+         props=['C13', 'C07'])
+
+
+def shuffle_post(self, args, tag, result, old):
+    """A fresh list holding exactly the matching residents, each once (some order)."""
+    A = self.agents
+    return (is_fresh(result, old)
+            and all(result[i].id in A and A[result[i].id] is result[i] and matches(result[i], args, tag)
+                    for i in range(len(result)))
+            and all(result[i] is not result[j] for i in range(len(result)) for j in range(i + 1, len(result)))
+            and all(index_of(result, A[k]) < len(result) for k in A if matches(A[k], args, tag)))
+
+
+contract('Core.Environment.shuffle',
+         params={'self': 'ref:Environment', '*args': 'list[cls]', 'tag': 'int'}, returns='list[ref:Agent]',
+         requires=[Env_rep],
+         ensures={'C13': [shuffle_post]},
+         modifies=['new:list[ref:Agent]'],
+         cases=[dict(name='tag', params={'tag': 'int'}), dict(name='notag', params={'tag': 'none'})],
+         effects_check=['rng_only_model_random'],
+         props=['C13', 'C07'])
+
+
+def sm_getitem_str_post(self, item, result):
+    return ((item in self.systems and result is self.systems[item]) or (item not in self.systems and is_none(result)))
+
+
+contract('Core.SystemManager.__getitem__',
+         params={'self': 'ref:SystemManager', 'item': 'str'}, returns='ref?:System',
+         ensures={'C01': [sm_getitem_str_post]}, props=['C01'])
+
+
+def sm_getitem_type_post(self, item, result):
+    P = self.component_pools
+    return ((item in P and result is P[item]) or (item not in P and is_none(result)))
+
+
+contract('Core.SystemManager.__getitem__', variant='type',
+         params={'self': 'ref:SystemManager', 'item': 'cls'}, returns='list[ref:Component]?',
+         ensures={'C03': [sm_getitem_type_post]}, props=['C03'])
+
+
+# ------------------------------------------------------------------------------------------------ C03 open findings
+# Component edits on a *resident* agent: the property asks the listings to follow; the code does not touch them.
+# These case-split contracts are expected to be refuted (known_findings.json F1, F2, F3b); the base contracts above
+# are the characterisation of what the code does instead (components updated, listings untouched).
+def resident_self(self):
+    A = self.model.environment.agents
+    return self.id in A and A[self.id] is self and Env_rep(self.model.environment)
+
+
+def self_mirror(self):
+    return PoolsMirror(self.model)
+
+
+def component_not_position(self, component):
+    return typeof(component) is not PositionComponent and component.agent is self
+
+
+contract('Core.Agent.add_component', variant='resident',
+         params={'self': 'ref:Agent', 'component': 'ref:Component'},
+         requires=[Agent_rep, resident_self, self_mirror, component_not_position],
+         ensures={'C03': [self_mirror]},
+         raises={'ValueError': dict(when=add_component_dup)},
+         modifies=['self.components'], native=False, props=['C03'],
+         expect_refuted=True, notes='expected refuted: open finding F1')
+
+
+def type_not_position(self, component_type):
+    return component_type is not PositionComponent
+
+
+contract('Core.Agent.remove_component', variant='resident',
+         params={'self': 'ref:Agent', 'component_type': 'cls'},
+         requires=[Agent_rep, resident_self, self_mirror, type_not_position],
+         ensures={'C03': [self_mirror]},
+         raises={'ComponentNotFoundError': dict(when=remove_component_absent)},
+         modifies=['self.components'], native=False, props=['C03'],
+         expect_refuted=True, notes='expected refuted: open finding F2')
